@@ -53,12 +53,16 @@ func fillC02(c *C02Case) {
 		prof.Atoms = []Atom{
 			{Kind: "in", Path: p, Vals: []string{"zzz_none"}},
 			{Kind: "maxCount", Path: p, Arg: i64p(0)},
+			{Kind: "uniqueValues", Path: p, UArg: bp(true)},
 		}
 		prof.Validations = []Validation{
 			{Name: "values", Class: NS + "F", Rule: Rule{Atom: ip(0)}},
 			{Name: "count", Class: NS + "F", Rule: Rule{Atom: ip(1)}},
+			{Name: "unique", Class: NS + "F", Rule: Rule{Atom: ip(2)}},
 		}
 	}
 	c.Profile = prof.Render()
 	c.Data = c.Graph.RenderFlat()
 }
+
+func bp(b bool) *bool { return &b }
